@@ -279,6 +279,7 @@ type Req struct {
 	Body          string // request body (empty: none)
 	Host          string // Host of the request (empty: \"sim\")
 	StartStamp    int64  // global event stamp when the request started being served
+	EndStamp      int64  // global event stamp when ServeHTTP returned
 	Chain         int    // chain the request is meant to run (route index, -1 not-found), -99 unknown
 
 	// Recorded.
